@@ -20,6 +20,9 @@ pub fn c07(rep: &mut Report, tier: &str) {
     push(rep, c07_typed(if quick { 6 } else { 8 }));
     push(rep, c07_roundtrip(if quick { 3 } else { 4 }, 2));
     push(rep, c07_roundtrip(2, if quick { 3 } else { 4 }));
+    // boundary-relevant strings at every offset of long lines (word-at-a-time scans, chunked copies)
+    push(rep, crate::e3_long::c07_long(if quick { 4 } else { 6 }, if quick { 48 } else { 80 }));
+    push(rep, crate::e3_long::c07_roundtrip_long(if quick { 40 } else { 72 }));
 }
 
 pub fn c08(rep: &mut Report, tier: &str) {
@@ -33,6 +36,10 @@ pub fn c08(rep: &mut Report, tier: &str) {
     if !quick {
         push(rep, c08_typed(3, 2));
     }
+    // many dashes, long names, long clusters, late positions
+    push(rep, c08_lists(&["-", "a", "é"], 2, if quick { 5 } else { 6 }));
+    push(rep, c08_lists(&["-", "a"], 3, 4));
+    push(rep, crate::e3_long::c08_long());
 }
 
 pub fn c17(rep: &mut Report, tier: &str) {
